@@ -4,6 +4,7 @@ from abc import abstractmethod
 
 import equinox as eqx
 import jax
+import numpy as np
 from jax import numpy as jnp
 from jax import random as jr
 from jaxtyping import Array, Integer, Key
@@ -45,7 +46,7 @@ class AbstractBuffer(eqx.Module):
         max_axis = max(axes) if axes else -1
 
         def flatten_leaf(x):
-            if not isinstance(x, jnp.ndarray):
+            if not isinstance(x, (jnp.ndarray, np.ndarray)):
                 return x
 
             if x.ndim <= max_axis:
